@@ -917,8 +917,17 @@ pub enum Res {
 pub struct Resolver {
     pub kinds: Vec<&'static str>,
     pub uses: Vec<Res>,
+    /// model of the repository's block scoping: a `let` stays visible until the end of the
+    /// enclosing function body (known finding), not just until the end of its block
+    pub leaky: bool,
+    /// model of the repository's `self`: a reference to a variable named `feed_id<lambda depth>`
+    pub self_feed: bool,
+    depth: usize,
 }
 impl Resolver {
+    pub fn new(leaky: bool, self_feed: bool) -> Self {
+        Resolver { kinds: vec![], uses: vec![], leaky, self_feed, depth: 0 }
+    }
     fn pat(&mut self, p: &Pat, v: &X, depth: usize, scope: &mut Vec<(String, usize)>) {
         match p {
             Pat::Name(n) => {
@@ -937,11 +946,23 @@ impl Resolver {
     }
     pub fn x(&mut self, e: &X, scope: &mut Vec<(String, usize)>) {
         match e {
-            X::Num(_) | X::SelfRef | X::Now | X::SampleRate => {}
+            X::Num(_) | X::Now | X::SampleRate => {}
+            X::SelfRef => {
+                if self.self_feed {
+                    let n = format!("feed_id{}", self.depth);
+                    match scope.iter().rev().find(|(k, _)| *k == n) {
+                        Some((_, i)) => self.uses.push(Res::Bound(*i)),
+                        None => self.uses.push(Res::Free("self".into())),
+                    }
+                } else {
+                    self.uses.push(Res::Free("self".into()));
+                }
+            }
             X::Var(n) => self.name(n, scope),
             X::Set(n, a, b) => {
-                self.name(n, scope);
+                // the repository evaluates the right-hand side before it resolves the assignee
                 self.x(a, scope);
+                self.name(n, scope);
                 self.x(b, scope);
             }
             X::Pipe(a, f) => {
@@ -961,7 +982,9 @@ impl Resolver {
                 let mark = scope.len();
                 self.pat(p, v, 0, scope);
                 self.x(b, scope);
-                scope.truncate(mark);
+                if !self.leaky {
+                    scope.truncate(mark);
+                }
             }
             X::If(c, t, f) => {
                 self.x(c, scope);
@@ -969,10 +992,13 @@ impl Resolver {
                 self.x(f, scope);
             }
             X::Lam(p, b) => {
+                let mark = scope.len();
                 self.kinds.push("lambda");
                 scope.push((p.clone(), self.kinds.len() - 1));
+                self.depth += 1;
                 self.x(b, scope);
-                scope.pop();
+                self.depth -= 1;
+                scope.truncate(mark);
             }
             X::App(f, args) => {
                 self.x(f, scope);
@@ -985,22 +1011,23 @@ impl Resolver {
     }
 }
 
-/// None when the naive and the hygienic expansion are alpha-equivalent; otherwise the kind of the
-/// binder that captures the first differing variable occurrence in the naive expansion
-pub fn capture_kind(naive: &[&X], hygienic: &[&X]) -> Option<&'static str> {
-    let mut a = Resolver { kinds: vec![], uses: vec![] };
-    let mut b = Resolver { kinds: vec![], uses: vec![] };
-    for x in naive {
-        a.x(x, &mut vec![]);
+/// binding structure of splice-free function bodies (each body is its own function)
+pub fn resolve(bodies: &[&X], leaky: bool, self_feed: bool) -> Resolver {
+    let mut r = Resolver::new(leaky, self_feed);
+    for x in bodies {
+        r.x(x, &mut vec![]);
     }
-    for x in hygienic {
-        b.x(x, &mut vec![]);
-    }
-    if a.uses.len() != b.uses.len() {
+    r
+}
+
+/// None when the two binding structures agree; otherwise the kind of the binder that captures the
+/// first differing occurrence in `a` ("escaped" when `a` leaves free what `h` binds)
+pub fn capture_kind(a: &Resolver, h: &Resolver) -> Option<&'static str> {
+    if a.uses.len() != h.uses.len() {
         return Some("shape");
     }
-    for (u, h) in a.uses.iter().zip(b.uses.iter()) {
-        match (u, h) {
+    for (u, v) in a.uses.iter().zip(h.uses.iter()) {
+        match (u, v) {
             (Res::Bound(i), Res::Bound(j)) if i == j => {}
             (Res::Free(_), Res::Free(_)) => {}
             (Res::Bound(i), _) => return Some(a.kinds.get(*i).copied().unwrap_or("unknown")),
@@ -1016,8 +1043,9 @@ pub fn capture_kind(naive: &[&X], hygienic: &[&X]) -> Option<&'static str> {
 
 pub const NUMS: &[f64] = &[1.0, 2.0, 0.5, 3.0, 0.25, 10.0, 0.1, 1.5, 7.0, 0.30000000000000004, 123456789.0, 0.000001, 100.0, 0.3333333333333333, 0.0];
 
-/// C10's collision pool: ordinary names and names the compiler itself synthesises
-pub const POOL: &[&str] = &["t", "x", "acc", "__dt0", "feed_id0", "__lambda_arg_0", "record_update_temp", "y"];
+/// C10's collision pool: ordinary names, names the compiler itself synthesises, and the global `g0`
+/// that macro bodies mention free (so a use-site binder can capture a macro's free variable too)
+pub const POOL: &[&str] = &["t", "x", "acc", "__dt0", "feed_id0", "__lambda_arg_0", "record_update_temp", "y", "g0"];
 
 #[derive(Clone, Copy, Debug, PartialEq)]
 enum K {
@@ -1396,6 +1424,17 @@ impl<'a> SG<'a> {
         let _ = top_of_macro_fn;
         let qc = QC { holes: holes.to_vec(), nholes: nholes.to_vec(), allow_self: false, in_branch: false, lam: self.lam_templates || holes.is_empty(), stateful, sites: false, arg: false, tuples: true };
         let mut x = self.gx(fuel, &qc);
+        if self.pool && !holes.is_empty() {
+            let mut bs = vec![];
+            binders_x(&x, &mut bs);
+            if bs.is_empty() {
+                // C10's domain: the quoted body binds a local around its splices
+                let n = self.binder();
+                let v = self.num();
+                let op = *self.g.pick(ARITH);
+                x = if self.lam_templates && self.g.coin() { X::App(bx(X::Lam(n.clone(), bx(X::Bin(op, bx(x), bx(X::Var(n)))))), vec![v]) } else { X::Let(Pat::Name(n.clone()), bx(v), bx(X::Bin(op, bx(x), bx(X::Var(n))))) };
+            }
+        }
         for h in holes {
             if !mentions_cvar_x(&x, h) {
                 let op = *self.g.pick(ARITH);
